@@ -44,8 +44,10 @@ def run_stream(res, key_prefix, cases, rng, label):
     order = list(range(len(cases)))
     rng.shuffle(order)
     import copy
-    for mode in ('one_thread', 'two_threads', 'checkpointed', 'fed_in_pieces', 'handed_over', 'two_feeders'):
-        parser = ev.new_parser()
+    for mi, mode in enumerate(('one_thread', 'two_threads', 'checkpointed', 'fed_in_pieces', 'handed_over', 'two_feeders')):
+        # (every other mode the parser KNOWS which process its two threads belong to - one process: state a decoder keeps
+        # "per process" is only reachable then)
+        parser = ev.new_parser(threads_pids={6: 77, 7: 77}, pids_names={77: 'proc'}) if (mi + len(cases)) % 2 else ev.new_parser()
         ts = 5000
         expected_by_first_ts = {}
         items = []
